@@ -30,14 +30,31 @@ def main() -> None:
     from vf.core import unjson
 
     cases = unjson(json.load(open(sys.argv[1])))
-    out = []
-    for case in cases:
+    # each environment walks through the batch in its own order, so that state leaking from one virtual ECU instance to
+    # the next one in the same process (caches, class attributes, global RNG) shows up as a difference
+    order = list(range(len(cases)))
+    mode = os.environ.get("VF_ORDER", "")
+    if mode == "reverse":
+        order.reverse()
+    elif mode.startswith("rotate:"):
+        k = int(mode.split(":")[1]) % max(1, len(order))
+        order = order[k:] + order[:k]
+    elif mode == "interleave":
+        order = order[::2] + order[1::2]
+    out = [None] * len(cases)
+    for ci in order:
+        case = cases[ci]
+        out[ci] = _one(case, vecu)
+    json.dump(out, open(sys.argv[2], "w"))
+
+
+def _one(case, vecu):
+    if True:
         rec: dict = {}
         try:
             d = vecu.Driver(case["seed"], case["params"], [])
         except Exception as e:  # noqa: BLE001
-            out.append({"setup_error": f"{type(e).__name__}: {e}"})
-            continue
+            return {"setup_error": f"{type(e).__name__}: {e}"}
         try:
             rec["model"] = json.dumps(d.model, sort_keys=True)
             tr = []
@@ -65,8 +82,7 @@ def main() -> None:
             rec["transcript"] = tr
         finally:
             d.close()
-        out.append(rec)
-    json.dump(out, open(sys.argv[2], "w"))
+        return rec
 
 
 main()
